@@ -452,37 +452,71 @@ def singleCalls (w : World) (r0 : Dir) (bare : Bool) (paths : Option (List PathA
 def multiGroups (w : World) (workDir : RawPath) (files : List PathArg) : List (Dir × List RawPath) :=
   groupsOf (groupFiles w.fs (files.map (absOf workDir)) (some workDir))
 
+/-- the branch taken when the work dir is in no repository -/
+def multiTrace (w : World) (workDir : RawPath) (paths : Option (List PathArg)) : Trace :=
+  match paths with
+  | none => ⟨[], .noRepoNoFiles⟩
+  | some files =>
+    if files.isEmpty then ⟨[], .noRepoNoFiles⟩
+    else if (multiGroups w workDir files).isEmpty then ⟨[], .noRepoForFiles⟩
+    else ⟨fanOut w (multiGroups w workDir files), .mainReturn⟩
+
+/-- the standard branch: work dir inside repository `r0` -/
+def singleTrace (w : World) (r0 : Dir) (bare : Bool) (paths : Option (List PathArg)) : Trace :=
+  if !w.allowed r0 then ⟨[], .notAllowed⟩
+  else ⟨singleCalls w r0 bare paths, if w.runOk r0 then .mainReturn else .localFailed⟩
+
+/-- `final_working_dir` -/
+def finalDir (w : World) (run : Option AgentRun) (workDir : RawPath) : RawPath :=
+  match run.bind (·.repoDir) with
+  | some d => absOf w.cwd d
+  | none => workDir
+
+/-- the path list of the single-repository branch (a plain `git-ai checkpoint` synthesises a
+    human run from its own arguments) -/
+def localPaths (w : World) (args : List Str) (run : Option AgentRun) : Option (List PathArg) :=
+  match run with
+  | some r => r.paths
+  | none => some (plainHumanPaths w args)
+
+def afterDispatch (w : World) (args : List Str) (run : Option AgentRun) (workDir : RawPath) : Trace :=
+  match discover w.fs (finalDir w run workDir) with
+  | .none => multiTrace w workDir (run.bind (·.paths))
+  | .repo r0 bare => singleTrace w r0 bare (localPaths w args run)
+
 def handleCheckpoint (w : World) (args : List Str) : Trace :=
   match parseFlags w args none with
   | .error s => ⟨[], s⟩
   | .ok hook =>
-  match dispatch w args hook with
-  | .error s => ⟨[], s⟩
-  | .ok (run, workDir) =>
-    let finalDir := match run.bind (·.repoDir) with
-      | some d => absOf w.cwd d
-      | none => workDir
-    match discover w.fs finalDir with
-    | .none =>
-      -- workspace root is not a repository: detect repositories from the file paths
-      match run.bind (·.paths) with
-      | none => ⟨[], .noRepoNoFiles⟩
-      | some files =>
-        if files.isEmpty then ⟨[], .noRepoNoFiles⟩
-        else
-          let groups := multiGroups w workDir files
-          if groups.isEmpty then ⟨[], .noRepoForFiles⟩
-          else ⟨fanOut w groups, .mainReturn⟩
-    | .repo r0 bare =>
-      if !w.allowed r0 then ⟨[], .notAllowed⟩
-      else
-        let paths : Option (List PathArg) := match run with
-          | some r => r.paths
-          | none => some (plainHumanPaths w args)
-        ⟨singleCalls w r0 bare paths, if w.runOk r0 then .mainReturn else .localFailed⟩
+    match dispatch w args hook with
+    | .error s => ⟨[], s⟩
+    | .ok rw => afterDispatch w args rw.1 rw.2
 
 /-- exit status of a trace, read off the extracted table of `process::exit` sites -/
 def exitStatus (tbl : List (ExitSite × Nat)) (t : Trace) : Option Nat := tbl.lookup t.exit
+
+/-! ## 6b. What git does with the pathspecs ("git kernel": validated by correspondence, not proved) -/
+
+/-- git's pathspec normalisation relative to the top level: `none` = "outside repository"
+    (a `..` that climbs above the top level makes `git status` fail, and with it the run). -/
+def specNorm : Dir → RawPath → Option Dir
+  | acc, [] => some acc
+  | acc, .cur :: r => specNorm acc r
+  | acc, .up :: r => if acc = [] then none else specNorm acc.dropLast r
+  | acc, .name s :: r => specNorm (acc ++ [s]) r
+
+/-- which of the changed text files (`dirty`, root-relative) a run records; `none` = the run
+    returns `Err` before writing anything (an empty pathspec is fatal for git as well).
+    A directory pathspec selects everything beneath it. -/
+def runEntries (scope : Scope) (dirty : List Dir) : Option (List Dir) :=
+  match scope with
+  | .all => some dirty
+  | .skipped => some []
+  | .only specs =>
+    if specs.any (· = []) then none
+    else match specs.mapM (specNorm []) with
+      | none => none
+      | some ns => some (dirty.filter (fun d => ns.any (fun n => n.isPrefixOf d)))
 
 /-! ## 7. JSON values, serde's compact writer, the agent-v1 input shape -/
 
@@ -495,8 +529,10 @@ inductive JVal where
   | obj (kvs : List (Str × JVal))
   deriving Repr, Inhabited
 
-def hexDigit (n : Nat) : Char :=
-  if n < 10 then Char.ofNat (48 + n) else Char.ofNat (87 + n)
+def hexChars : List Char :=
+  ['0', '1', '2', '3', '4', '5', '6', '7', '8', '9', 'a', 'b', 'c', 'd', 'e', 'f']
+
+def hexDigit (n : Nat) : Char := hexChars.getD n '0'
 
 /-- `serde_json`'s string escaping (`format_escaped_str_contents`): `"` `\\` and every
     control character below 0x20 are escaped; everything else is copied. -/
@@ -704,24 +740,24 @@ def decodeAiSeq : List JVal → Option AgentRun
     pure (aiRun d e)
   | _ => none
 
+def decodeAgentV1Opt : JVal → Option AgentRun
+  | .obj kvs =>
+    match field kvs sType with
+    | .one (.str t) =>
+      if t = sHuman then decodeHumanMap kvs
+      else if t = sAiAgent then decodeAiMap kvs
+      else none
+    | _ => none
+  | .arr (.str t :: rest) =>
+    if t = sHuman then decodeHumanSeq rest
+    else if t = sAiAgent then decodeAiSeq rest
+    else none
+  | _ => none
+
 /-- `serde_json::from_str::<AgentV1Input>` after JSON parsing (internally tagged enum,
     `tag = "type"`, `rename_all = "snake_case"`; unknown keys ignored). -/
 def decodeAgentV1 (j : JVal) : Except DecodeErr AgentRun :=
-  let r : Option AgentRun :=
-    match j with
-    | .obj kvs =>
-      match field kvs sType with
-      | .one (.str t) =>
-        if t = sHuman then decodeHumanMap kvs
-        else if t = sAiAgent then decodeAiMap kvs
-        else none
-      | _ => none
-    | .arr (.str t :: rest) =>
-      if t = sHuman then decodeHumanSeq rest
-      else if t = sAiAgent then decodeAiSeq rest
-      else none
-    | _ => none
-  match r with
+  match decodeAgentV1Opt j with
   | some a => .ok a
   | none => .error .rejected
 
